@@ -346,11 +346,49 @@ def fail_action(stmts):
     return 'continue'
 
 
+NOISY_NAMES = {'self', 'result', 'settings', 'i', 'e', 'exc', 'alert'}
+
+
 class SiteWalker(object):
-    def __init__(self, fname, func):
+    def __init__(self, fname, func, bindings=None):
         self.rows = []
         self.fname = fname
         self.func = func
+        # name -> every binding of that local name seen so far in source order (assignments, loop
+        # targets): argument provenance of the verification calls
+        self.bindings = bindings if bindings is not None else {}
+
+    def bind(self, target, text):
+        names = []
+        for t in (target.elts if isinstance(target, ast.Tuple) else [target]):
+            if isinstance(t, ast.Name):
+                names.append(t.id)
+        for n in names:
+            if n in NOISY_NAMES:
+                continue
+            l = self.bindings.setdefault(n, [])
+            if text not in l:
+                l.append(text)
+
+    def provenance(self, call):
+        """which object every argument (and the receiver) of a verification call is: for each
+        local name occurring in the call, all its bindings before this point"""
+        names = []
+        for n in ast.walk(call):
+            if isinstance(n, ast.Name) and n.id not in NOISY_NAMES and n.id not in names:
+                names.append(n.id)
+        import re
+        for n in list(names):                      # one more level for the receiver (method / ver_func <- key object)
+            if n in ('method', 'ver_func'):
+                for txt in self.bindings.get(n, []):
+                    for w in re.findall(r'[A-Za-z_]\w*', txt):
+                        if w in self.bindings and w not in names and w not in NOISY_NAMES:
+                            names.append(w)
+        parts = []
+        for n in names:
+            if n in self.bindings:
+                parts.append('%s<-%s' % (n, ' | '.join(self.bindings[n])))
+        return (' {' + '; '.join(parts) + '}') if parts else ''
 
     def row(self, kind, text, guards, fail):
         self.rows.append((self.fname, self.func, kind, text, ' && '.join(guards), fail))
@@ -363,7 +401,7 @@ class SiteWalker(object):
                 f = n.func
                 nm = f.attr if isinstance(f, ast.Attribute) else f.id if isinstance(f, ast.Name) else None
                 if nm in VERIFY_CALLS:
-                    found.append((n.lineno, n.col_offset, 'check', short(n)))
+                    found.append((n.lineno, n.col_offset, 'check', short(n) + self.provenance(n)))
                 elif nm == 'create' and isinstance(f, ast.Attribute) and short(f.value, 60).endswith('session'):
                     args = [short(a, 70) for a in n.args[3:6]]
                     kw = [k.arg + '=' + short(k.value, 50) for k in n.keywords if k.arg == 'delegated_credential']
@@ -387,6 +425,8 @@ class SiteWalker(object):
                 self.walk(s.orelse, guards + ['not(' + g + ')'])
             elif isinstance(s, (ast.For, ast.While)):
                 self.events_in(s.iter if isinstance(s, ast.For) else s.test, guards)
+                if isinstance(s, ast.For):
+                    self.bind(s.target, 'for ' + short(s.iter, 60))
                 # "for result in self._xxx(...): yield" is the generator-call idiom: no new guard
                 idiom = isinstance(s, ast.For) and isinstance(s.target, ast.Name) and s.target.id == 'result'
                 self.walk(s.body, guards if idiom else guards + ['loop ' + short(s.target if isinstance(s, ast.For) else s.test, 50)])
@@ -394,7 +434,7 @@ class SiteWalker(object):
             elif isinstance(s, ast.Try):
                 hs = ';'.join('%s->%s' % (short(h.type, 50) if h.type is not None else 'any', fail_action(h.body))
                               for h in s.handlers)
-                w = SiteWalker(self.fname, self.func)
+                w = SiteWalker(self.fname, self.func, self.bindings)
                 w.walk(s.body, guards)
                 for r in w.rows:
                     self.rows.append(r[:5] + ((r[5] + '|except ' + hs) if r[2] in ('check', 'compare') else r[5],))
@@ -411,6 +451,8 @@ class SiteWalker(object):
                     for t in targets:
                         flat += list(t.elts) if isinstance(t, ast.Tuple) else [t]
                     self.events_in(s.value, guards)
+                    for t in targets:
+                        self.bind(t, short(s.value, 60))
                     for t in flat:
                         nm = t.id if isinstance(t, ast.Name) else t.attr if isinstance(t, ast.Attribute) else None
                         if nm in IDENT_NAMES:
